@@ -8,7 +8,7 @@ cd "$here"
 . ./env.sh
 case "$out" in /*) ;; *) out="$here/$out" ;; esac
 mkdir -p work/bin work/instr
-go build -o "$out" ./cmd/c14 &
+go build ${SEED_OVERLAY:+-overlay "$SEED_OVERLAY"} -o "$out" ./cmd/c14 &   # SEED_OVERLAY: trial builds against a changed copy of /repo (tools/seedcheck.py)
 p1=$!
 go build -o work/bin/instr ./instr
 work/bin/instr -q -out work/instr/c14s -repo "${VSCHED_REPO:-/repo}" -overlay-root /repo \
